@@ -91,7 +91,7 @@ Step ==
              /\ cnt' = Bump(cnt, {"table.calls", "table." \o ln.op \o (IF ln.err = "" THEN "" ELSE ".refused")}
                                  \cup (IF NewHand(tb, ln.T) THEN {"table.handsStarted", "C08.positions.viaTable"} ELSE {})
                                  \cup (IF NewHand(tb, ln.T) /\ tb.status = "idle" /\ tb.count > 0 THEN {"table.restartedFromIdle"} ELSE {})
-                                 \cup (IF NewHand(tb, ln.T) /\ tb.count > 0 /\ <<ln.T.G.meta.ante, ln.T.G.meta.sb, ln.T.G.meta.bb>> # <<tb.tg.g.meta.ante, tb.tg.g.meta.sb, tb.tg.g.meta.bb>>
+                                 \cup (IF NewHand(tb, ln.T) /\ tb.count > 0 /\ tb.tg.g # NULL /\ <<ln.T.G.meta.ante, ln.T.G.meta.sb, ln.T.G.meta.bb>> # <<tb.tg.g.meta.ante, tb.tg.g.meta.sb, tb.tg.g.meta.bb>>
                                        THEN {"table.newBlindLevel"} ELSE {})
                                  \cup (IF ln.T.hasClosed THEN {"table.handsClosed"} ELSE {})
                                  \cup (IF ln.T.status = "closed" /\ tb.status # "closed" THEN {"table.closed"} ELSE {})
